@@ -20,7 +20,10 @@ RULE = ('C13.history: rule-based state machine over a shared pool of live '
         'text and tables, write+read in a scratch directory, list slicing) '
         'with Hypothesis-drawn arguments; after every step the deep '
         'fingerprint of the WHOLE pool and of the module-level parser tables '
-        'must be unchanged, and a memo keyed by (operation, arguments) asserts '
+        'must be unchanged - also after the arrays in the result (masks, '
+        'membership arrays, weighted values, vertices of rotated/copied/'
+        'converted polygons; not cutout(copy=False), a documented view) have '
+        'been overwritten in place - and a memo keyed by (operation, arguments) asserts '
         'that repeating an operation at any later point gives the same result '
         'fingerprint. C13.fresh: a generated history is run in-process, then '
         'a target operation; its result must equal the result of the same '
@@ -71,6 +74,9 @@ class Model:
         key = json.dumps(op)
         args, result = H.apply(self.pool, op)
         rfp = fp(result)
+        # the caller edits what it was given (thresholding a mask, scaling
+        # values in place): neither the pool nor any later result may notice
+        ctx.count('results_edited', H.scribble(op, result))
         now = fp(self._flat())
         if now != self.pool_fp:
             what = _first_diff(now, self.pool_fp)
